@@ -30,6 +30,9 @@ CHECKS = {
  "C08": ("progsim", "runtime monitoring: collector-state introspection hook compared with the model at quiescent points",
   "after every program (roots deliberately left in flight across programs are not used; each program ends quiescent) collector_stats() must show exactly the expected active collect ids, no buffered sets / parked attachments for finished traces, empty scratch vectors and one receiver per live thread; histories include thread exits, cancels, roots finished on other threads, stepped mid-drain schedules.",
   "collect ids are predicted from the order of sampled root creations in the process", "DESIGN.md §5 C08"),
+ "C09": ("progsim+hostile", "runtime monitoring: fault injection (full command ring, exceeded scope limits) with an exact permitted-omission set from the Push hook",
+  "A thread's ring is really filled (10300+ commands with the collector held back) at random points of random programs; every operation kind is issued during the episode; the hook's pre-push `full` reading yields exactly which commands may have been dropped, so the oracles demand everything else, check every delivered record in full, demand that cancelled traces stay away and that finished traces leave no entry once the thread has sent again, and that a fresh trace after the drain is complete; templates step the collector between the replayed pushes of parked cancel/commit and run 10300-span scopes and 4100 nested scopes against the model; per-call latency with an undrained ring is measured in separate processes.",
+  "a signal parked at thread exit with a full ring may be lost (the statement says: while the thread lives); one recorded finding (parked cancel overtaken by another thread's commit)", "DESIGN.md §5 C09"),
  "C10": ("progsim", "runtime monitoring: frame-condition probes (current_local_parent before open == after close) + model comparison",
   "every scope opened by a generated program (guards, local spans, local collectors, to depth 64) is bracketed by current_local_parent() probes that must agree; every probe is also compared with the model, and the parents/attachment targets of everything created afterwards are checked through the record oracles.",
   "inside a LocalCollector the value of current_local_parent() is what the model derives from the code (None)", "DESIGN.md §5 C10"),
